@@ -3,7 +3,7 @@ from ..engine import rule
 from ..db import (walk, peel, peel_casts, render, callee, path_ends, short_path, is_call, call_args, lit_int,
                   diverges, exit_kind, path_conditions, atoms, AnchorMissing, local_name, CMP_OPS, SWAP)
 from ..guards import guarded_exits, mentions, is_call_to, cmp_atom
-from ..origins import origins, index as oindex, for_loop_parts, pat_bindings, unwrap_try
+from ..origins import origins, index as oindex, for_loop_parts, pat_bindings, unwrap_try, resolve_let
 from ..uses import consumer
 
 META = {
@@ -49,6 +49,7 @@ def relax_all(db, ctx):
     ctx.ob("connect_node|one-loop", len(loops) == 1, "connect_node has %d for-loops (expected exactly 1)" % len(loops), fn=f)
     for n, (it, pat, body), ps in loops:
         names, base = _chain(it)
+        base = resolve_let(db, f, base)   # `let row = &self.ends[begin]; for .. in row.iter()` is the same loop
         base_ok = base.get("k") == "Index" and peel(base["e"]).get("k") == "Field" and peel(base["e"]).get("name") == "ends"
         idx_ok = base_ok and local_name(base["i"]) is not None
         chain_ok = set(names) <= {"iter", "enumerate"} and "iter" in names
